@@ -1141,6 +1141,24 @@ sexp sexp_apply (sexp ctx, sexp proc, sexp args) {
       tmp2 = ctx;
 #endif
       ctx = sexp_apply1(ctx, tmp1, root_thread);
+      if (ctx != root_thread && sexp_context_refuel(root_thread) <= 0
+          && !(sexp_context_waitp(ctx) && sexp_context_refuel(ctx) > 0)) {
+        /* The thread this VM was started for has been terminated
+           while others were running in it.  Whoever called us is
+           waiting for its result, so leave - the thread we were about
+           to run goes back to the front of the queue. */
+        if (sexp_context_refuel(ctx) > 0) {
+          tmp1 = sexp_cons(ctx, ctx, sexp_global(ctx, SEXP_G_THREADS_FRONT));
+          sexp_global(ctx, SEXP_G_THREADS_FRONT) = tmp1;
+          if (!sexp_pairp(sexp_global(ctx, SEXP_G_THREADS_BACK)))
+            sexp_global(ctx, SEXP_G_THREADS_BACK) = tmp1;
+        }
+        ctx = root_thread;
+        stack = sexp_stack_data(sexp_context_stack(ctx));
+        top = base;
+        _PUSH(sexp_context_result(ctx) ? sexp_context_result(ctx) : SEXP_VOID);
+        goto leave;
+      }
       /* restore thread */
       stack = sexp_stack_data(sexp_context_stack(ctx));
       top = sexp_context_top(ctx);
@@ -2375,10 +2393,7 @@ sexp sexp_apply (sexp ctx, sexp proc, sexp args) {
 #if SEXP_USE_GREEN_THREADS
   sexp_context_result(ctx) = _ARG1;
   if (ctx != root_thread) {
-    if (sexp_context_refuel(root_thread) <= 0) {
-      /* the root already terminated */
-      _ARG1 = sexp_context_result(root_thread);
-    } else if (top > 1 && !sexp_exceptionp(_ARG1) && sexp_context_saves(ctx)) {
+    if (top > 1 && !sexp_exceptionp(_ARG1) && sexp_context_saves(ctx)) {
       /* This isn't the end of the thread but of a procedure it was
          running for a C function (a nested sexp_apply) which is below
          the current one on the C stack, so we can't return to it
@@ -2406,6 +2421,9 @@ sexp sexp_apply (sexp ctx, sexp proc, sexp args) {
       goto loop;
     }
   }
+#endif
+#if SEXP_USE_GREEN_THREADS
+ leave:
 #endif
   sexp_gc_release3(ctx);
   tmp1 = _ARG1;
